@@ -21,8 +21,13 @@ RULE = ("a case = one tree instance (shape, labels, dict insertion order incl. o
         "add_parent_to_root / renaming, child order) with all its queries: exhaustive over all ordered "
         "rooted trees with <= 7 nodes (thorough: also all 429 trees with 8 nodes) x several instances each, "
         "random trees up to 40 nodes, and a few real TTNS/TTNO instances (SandwichCache with real "
-        "contractions, TDVP constructor: update path, segments, cache toward its first node). "
-        "non-trivial = distinct instance with >= 3 nodes")
+        "contractions, every navigation query on the network object, constructors of all three TDVP classes: "
+        "update path, segments, cache toward its first node - also after one time step + reset_to_initial_state). "
+        "Input-space families on top (every run): identifiers that are digits / contain blanks / are prefixes of "
+        "one another / look like constants; histories (the same object queried, changed by add_child_to_parent / "
+        "add_parent_to_root / change_node_identifier / an exchange of two identifiers / a child-order change, and "
+        "queried again after every change); trees of 41-150 nodes (thorough: 300) incl. deep chains; a second "
+        "find_path() on the same finder. non-trivial = distinct instance with >= 3 nodes")
 PARTIAL = [
     "the theorems are stated about the structural model on RTree; its equality with the line-by-line flat port "
     "(dict order, parent pointers, fuel-bounded recursion) is PROVED on every valid mirror in any dict order for "
@@ -53,6 +58,62 @@ def nm(label: int) -> str:
 
 def lab(name: str) -> int:
     return int(name[1:])
+
+
+class Naming:
+    """Bijection between the canonical names `n<label>` (used by the models, the oracle and every comparison)
+    and the identifiers the real tree is built with.  `plain` is the identity; the other schemes give
+    identifiers that are digits only, contain blanks, are prefixes of one another or look like Python
+    constants / attribute names (the anchored code only ever compares identifiers and uses them as keys)."""
+
+    ODD = ["0", "None", "False", " ", "root", "parent", "-1", "n", "nn", "n_n", "\u00f1", "n1 ", "\tn1", "children",
+           "[]", "n1_ket", "n1_bra", "tmp"]
+
+    def __init__(self, scheme: str = "plain", labels=()):
+        self.scheme = scheme
+        self.fw: Dict[str, str] = {}
+        self.bw: Dict[str, str] = {}
+        labels = list(labels)
+        if scheme == "achain":                  # a, aa, aaa, ...: every identifier is a prefix of the longer ones
+            for r, l in enumerate(sorted(labels)):
+                self._put(nm(l), "a" * (r + 1))
+        elif scheme == "odd":
+            for r, l in enumerate(labels):
+                if r < len(self.ODD):
+                    self._put(nm(l), self.ODD[(r + len(labels)) % len(self.ODD)])
+        elif scheme not in ("plain", "digits", "spaced"):
+            raise ValueError(scheme)
+
+    def _put(self, canon, real):
+        self.fw[canon] = real
+        self.bw[real] = canon
+
+    def real(self, canon: str) -> str:
+        if canon in self.fw:
+            return self.fw[canon]
+        if self.scheme == "digits":
+            return canon[1:]
+        if self.scheme == "spaced":
+            return f" n {canon[1:]} "
+        return canon
+
+    def canon(self, real: str) -> str:
+        if real in self.bw:
+            return self.bw[real]
+        if self.scheme == "digits":
+            return "n" + real
+        if self.scheme == "spaced":
+            return "n" + real.split()[1]
+        return real
+
+
+PLAIN = Naming()
+ID_SCHEMES = ["digits", "spaced", "achain", "odd"]
+
+
+def naming_of(ex: dict) -> Naming:
+    scheme = ex.get("ids", "plain")
+    return PLAIN if scheme == "plain" else Naming(scheme, ex["label"])
 
 
 # ------------------------------------------------------------------ cases
@@ -103,8 +164,11 @@ def expand(case: dict) -> dict:
         build = "rename"
     else:
         raise ValueError(variant)
-    return {"kind": "explicit", "n": n, "par": list(par), "label": label, "order": order, "kids": kids,
-            "build": build, "pairs": case.get("pairs", "all"), "stub": True}
+    out = {"kind": "explicit", "n": n, "par": list(par), "label": label, "order": order, "kids": kids,
+           "build": build, "pairs": case.get("pairs", "all"), "stub": True}
+    if case.get("ids", "plain") != "plain":
+        out["ids"] = case["ids"]
+    return out
 
 
 def _dfs_order(par):
@@ -150,7 +214,8 @@ def build_tree(ex: dict):
     from pytreenet.core.tree_structure import TreeStructure
     from pytreenet.core.graph_node import GraphNode
     n, par, label, order, kids = ex["n"], ex["par"], ex["label"], ex["order"], ex["kids"]
-    name = [nm(label[i]) for i in range(n)]
+    naming = naming_of(ex)
+    name = [naming.real(nm(label[i])) for i in range(n)]
     ts = TreeStructure()
     if ex["build"] == "grow":
         top = order[0]
@@ -184,8 +249,12 @@ def build_tree(ex: dict):
     return ts
 
 
-def read_structure(ts) -> Tuple[Optional[str], List[Tuple[str, Optional[str], List[str]]]]:
-    return ts.root_id, [(k, ts.nodes[k].parent, list(ts.nodes[k].children)) for k in ts.nodes]
+def read_structure(ts, naming: Naming = PLAIN) -> Tuple[Optional[str], List[Tuple[str, Optional[str], List[str]]]]:
+    """(root, [(node, parent, children)]) in dict order, in canonical names"""
+    c = naming.canon
+    return (None if ts.root_id is None else c(ts.root_id),
+            [(c(k), None if ts.nodes[k].parent is None else c(ts.nodes[k].parent),
+              [c(x) for x in ts.nodes[k].children]) for k in ts.nodes])
 
 
 def model_tree_tokens(root, nodes) -> str:
@@ -217,8 +286,45 @@ def gen_cases(ctx):
         cases.append({"kind": "random", "n": n, "seed": rng.randrange(10 ** 9),
                       "shape": rng.choice(["uniform", "uniform", "chain", "star", "binaryish", "caterpillar"]),
                       "variant": rng.choice(variants), "pairs": rng.randrange(10 ** 9)})
-    for _ in range(ctx.n(10, 100)):
-        cases.append({"kind": "real", "n": rng.randint(2, 7), "seed": rng.randrange(10 ** 9), "parts": ["nav"]})
+    for i in range(ctx.n(10, 100)):
+        cases.append({"kind": "real", "n": 1 if i == 0 else rng.randint(2, 7), "seed": rng.randrange(10 ** 9),
+                      "parts": ["nav"]})
+    # ---- input-space families (notes/C17.md, "Input-space audit"); own generator so that the cases above are
+    # the same as before for a given seed
+    frng = ctx.subrng("families")
+    shapes = ["uniform", "chain", "star", "binaryish", "caterpillar", "spider", "twig", "bush"]
+    # (1) identifiers that are digits / contain blanks / are prefixes of one another / look like constants
+    for i in range(ctx.n(100, 1500)):
+        scheme = ID_SCHEMES[i % len(ID_SCHEMES)]
+        if i % 3 == 0:
+            n = frng.randint(1, 6)
+            c = {"kind": "enum", "n": n, "index": frng.randrange(len(gen.all_ordered_trees(n))),
+                 "variant": frng.choice(variants), "seed": frng.randrange(10 ** 9)}
+        else:
+            c = {"kind": "random", "n": frng.randint(7, 24), "seed": frng.randrange(10 ** 9),
+                 "shape": frng.choice(shapes), "variant": frng.choice(variants), "pairs": frng.randrange(10 ** 9)}
+        c["ids"] = scheme
+        cases.append(c)
+    # (2) histories: the same object is queried, changed by a public mutator, and queried again
+    for i in range(ctx.n(150, 2000)):
+        if i % 2 == 0:
+            n = frng.randint(1, 6)
+            base = {"kind": "enum", "n": n, "index": frng.randrange(len(gen.all_ordered_trees(n))),
+                    "variant": frng.choice(variants), "seed": frng.randrange(10 ** 9)}
+        else:
+            base = {"kind": "random", "n": frng.randint(7, 16), "seed": frng.randrange(10 ** 9),
+                    "shape": frng.choice(shapes), "variant": frng.choice(variants), "pairs": frng.randrange(10 ** 9)}
+        if i % 5 == 0:
+            base["ids"] = frng.choice(["digits", "spaced"])
+        cases.append({"kind": "history", "base": base, "hseed": frng.randrange(10 ** 9), "nsteps": frng.randint(1, 3)})
+    # (3) trees well beyond 40 nodes (deep chains, wide stars, everything in between)
+    big = [(frng.randint(41, 90), frng.choice(shapes)) for _ in range(ctx.n(3, 40))]
+    big += [(frng.randint(100, 130), "chain"), (frng.randint(100, 150), frng.choice(["star", "spider", "twig", "bush"]))]
+    if thorough:
+        big += [(300, "chain"), (300, "spider"), (250, "uniform")]
+    for n, shape in big:
+        cases.append({"kind": "random", "n": n, "seed": frng.randrange(10 ** 9), "shape": shape,
+                      "variant": frng.choice(variants), "pairs": frng.randrange(10 ** 9)})
     return cases
 
 
@@ -261,90 +367,109 @@ def query_list(labels: List[int], pairs) -> List[Tuple[str, ...]]:
 STRUCT_SKIP = {"leaves", "nn"}          # depend on the dict order: flat model only
 
 
-def fmt_ids(names) -> str:
-    return " ".join(["ok"] + [str(lab(x)) for x in names])
+def fmt_ids(names, naming: "Naming" = None) -> str:
+    c = (naming or PLAIN).canon
+    return " ".join(["ok"] + [str(lab(c(x))) for x in names])
 
 
-def fmt_segs(update_path, orth_path) -> str:
+def fmt_segs(update_path, orth_path, naming: "Naming" = None) -> str:
     """segments (u_i, orthogonalization_path[i][0]) and the last node of the sweep"""
-    segs = [f"{lab(update_path[i])}>{lab(orth_path[i][0])}" for i in range(len(orth_path))]
-    return " ".join(["ok"] + segs + ["last", str(lab(update_path[-1]))])
+    c = (naming or PLAIN).canon
+    segs = [f"{lab(c(update_path[i]))}>{lab(c(orth_path[i][0]))}" for i in range(len(orth_path))]
+    return " ".join(["ok"] + segs + ["last", str(lab(c(update_path[-1])))])
 
 
 class CacheStub:
     """Replaces contract_any while the keys are observed: records the call order and checks that
     every block the contraction would read is already in the cache."""
 
-    def __init__(self, adj):
-        self.adj = adj
-        self.calls: List[Tuple[str, str]] = []
+    def __init__(self, adj, naming: "Naming" = None):
+        self.adj = adj                          # canonical names
+        self.naming = naming or PLAIN
+        self.calls: List[Tuple[str, str]] = []  # real identifiers, as passed by the code
         self.missing: List[str] = []
 
     def __call__(self, node_id, next_node_id, state, hamiltonian, cache):
-        for w in self.adj[node_id]:
-            if w != next_node_id and (w, node_id) not in cache:
-                self.missing.append(f"block ({node_id},{next_node_id}) built before ({w},{node_id})")
+        r, c = self.naming.real, self.naming.canon
+        for w in self.adj[c(node_id)]:
+            if r(w) != next_node_id and (r(w), node_id) not in cache:
+                self.missing.append(f"block ({c(node_id)},{c(next_node_id)}) built before ({w},{c(node_id)})")
         self.calls.append((node_id, next_node_id))
         return ("block", node_id, next_node_id)
 
 
-def impl_answer(ts, q, adj, extra) -> str:
+def impl_answer(ts, q, adj, extra, naming: "Naming" = None) -> str:
     """Run one query on the real code; canonical answer string ('err' = the code raised)."""
     from pytreenet.time_evolution.time_evo_util.update_path import TDVPUpdatePathFinder
     import pytreenet.contractions.sandwich_caching as sc
+    naming = naming or PLAIN
     kind = q[0]
+
+    def arg(i):                                 # the identifier the real tree uses for the i-th argument
+        return naming.real(nm(int(q[i])))
+
+    def L(x):                                   # label of a real identifier
+        return lab(naming.canon(x))
+
+    def ids(names):
+        return fmt_ids(names, naming)
     try:
         if kind == "path":
-            return fmt_ids(ts.path_from_to(nm(int(q[1])), nm(int(q[2]))))
+            return ids(ts.path_from_to(arg(1), arg(2)))
         if kind == "rootpath":
-            return fmt_ids(ts.find_path_to_root(nm(int(q[1]))))
+            return ids(ts.find_path_to_root(arg(1)))
         if kind == "dist":
-            d = ts.distance_to_node(nm(int(q[1])))
-            return " ".join(["ok"] + [f"{lab(k)}:{v}" for k, v in d.items()])
+            d = ts.distance_to_node(arg(1))
+            return " ".join(["ok"] + [f"{L(k)}:{v}" for k, v in d.items()])
         if kind == "linearise":
-            return fmt_ids(ts.linearise())
+            return ids(ts.linearise())
         if kind == "subtree":
-            d = ts.find_subtree_of_node(nm(int(q[1])))
+            d = ts.find_subtree_of_node(arg(1))
             if any(v is not ts.nodes[k] for k, v in d.items()):
                 extra.append(f"find_subtree_of_node({q[1]}): a value is not the node of its key")
-            return fmt_ids(d.keys())
+            return ids(d.keys())
         if kind == "leavesunder":
-            d = ts.leaves_under_node(nm(int(q[1])))
+            d = ts.leaves_under_node(arg(1))
             if any(v is not ts.nodes[k] for k, v in d.items()):
                 extra.append(f"leaves_under_node({q[1]}): a value is not the node of its key")
-            return fmt_ids(d.keys())
+            return ids(d.keys())
         if kind == "subsize":
-            return f"ok {ts.find_subtree_size_of_node(nm(int(q[1])))}"
+            return f"ok {ts.find_subtree_size_of_node(arg(1))}"
         if kind == "leaves":
-            return fmt_ids(ts.get_leaves())
+            return ids(ts.get_leaves())
         if kind == "nn":
-            return " ".join(["ok"] + [f"{lab(a)}>{lab(b)}" for a, b in ts.nearest_neighbours()])
+            return " ".join(["ok"] + [f"{L(a)}>{L(b)}" for a, b in ts.nearest_neighbours()])
         if kind == "start":
-            return fmt_ids([TDVPUpdatePathFinder(ts).start])
+            return ids([TDVPUpdatePathFinder(ts).start])
         if kind == "updatepath":
-            return fmt_ids(TDVPUpdatePathFinder(ts).find_path())
+            finder = TDVPUpdatePathFinder(ts)
+            first = ids(finder.find_path())
+            again = ids(finder.find_path())     # a second call on the same finder object
+            if again != first:
+                extra.append(("second find_path", again))
+            return first
         if kind == "segs":
             # the real `_find_tdvp_orthogonalization_path` run on this tree (it only uses `self.state`)
             import types
             from pytreenet.time_evolution.tdvp_algorithms.tdvp_algorithm import TDVPAlgorithm
             up = TDVPUpdatePathFinder(ts).find_path()
             orth = TDVPAlgorithm._find_tdvp_orthogonalization_path(types.SimpleNamespace(state=ts), up)
-            return fmt_segs(up, orth)
+            return fmt_segs(up, orth, naming)
         if kind == "nbrs":
-            return fmt_ids(ts.nodes[nm(int(q[1]))].neighbouring_nodes())
+            return ids(ts.nodes[arg(1)].neighbouring_nodes())
         if kind == "cachekeys":
-            stub = CacheStub(adj)
+            stub = CacheStub(adj, naming)
             saved = sc.contract_any
             sc.contract_any = stub
             try:
-                cache = sc.SandwichCache.init_cache_but_one(ts, None, nm(int(q[1])))
+                cache = sc.SandwichCache.init_cache_but_one(ts, None, arg(1))
             finally:
                 sc.contract_any = saved
             extra.extend(stub.missing[:2])
             keys = list(cache.keys())
             if keys != stub.calls:
                 extra.append(f"cache keys {keys} differ from the blocks computed {stub.calls}")
-            return " ".join(["ok"] + [f"{lab(a)}>{lab(b)}" for a, b in keys])
+            return " ".join(["ok"] + [f"{L(a)}>{L(b)}" for a, b in keys])
     except Exception as e:                  # noqa: BLE001
         extra_exc = f"{type(e).__name__}: {str(e)[:80]}"
         impl_answer.last_exc = extra_exc
@@ -508,6 +633,9 @@ def oracle(root, nodes, adj, queries, answers, errkey=None) -> List[str]:
                 probs.append(f"sweep segments {ans[3:]} are not the edges of the tree, each once")
             else:
                 for i, (u, h) in enumerate(segs):
+                    if u == ups[i + 1] or u == last:
+                        probs.append(f"segment ({lab(u)},{lab(h)}) starts at the node it is meant to lead to")
+                        break
                     if bfs_path(adj, u, ups[i + 1], bc)[1] != h:
                         probs.append(f"segment ({lab(u)},{lab(h)}): {lab(h)} is not the first node toward {lab(ups[i + 1])}")
                         break
@@ -525,7 +653,7 @@ def oracle(root, nodes, adj, queries, answers, errkey=None) -> List[str]:
                 probs.append(f"init_cache_but_one({q[1]}): keys {ans[3:]} are not one block per edge")
             else:
                 for u, v in keys:
-                    if bfs_path(adj, u, c, bc)[1] != v:
+                    if u == c or bfs_path(adj, u, c, bc)[1] != v:
                         probs.append(f"init_cache_but_one({q[1]}): block ({lab(u)},{lab(v)}) does not point toward {q[1]}")
                         break
     return probs
@@ -574,65 +702,152 @@ def prepare(ctx, case):
     """Build the object, run the implementation, assemble the model request lines."""
     if case["kind"] == "real":
         return prepare_real(ctx, case)
+    base = case["base"] if case["kind"] == "history" else case
     try:
-        ex = expand(case)
+        ex = expand(base)
         ts = build_tree(ex)
     except Exception as e:                  # noqa: BLE001
         ctx.oracle_fail(case, f"building the tree through the public API raised {type(e).__name__}: {e}")
         return None
-    root, nodes = read_structure(ts)
+    naming = naming_of(ex)
+    segments = [tree_segment(ts, ex["pairs"], naming)]
+    steps = []
+    if case["kind"] == "history":
+        # the SAME object is changed through the public mutators and asked again after every change
+        rng = random.Random(case["hseed"])
+        for _ in range(case["nsteps"]):
+            try:
+                steps.append(apply_step(rng, ts, naming))
+            except Exception as e:              # noqa: BLE001
+                ctx.oracle_fail(case, f"history {steps}: mutator raised {type(e).__name__}: {str(e)[:120]}")
+                return None
+            segments.append(tree_segment(ts, ex["pairs"] if ex["pairs"] == "all" and len(ts.nodes) <= 8
+                                         else case["hseed"], naming))
+    lines = []
+    for seg in segments:
+        lines.extend(seg["lines"])
+    return {"kind": "tree", "ex": ex, "segments": segments, "steps": steps, "lines": lines}
+
+
+def tree_segment(ts, pairs, naming):
+    """All queries on the tree as it is now: the implementation's answers and the two model requests."""
+    root, nodes = read_structure(ts, naming)
     adj = adjacency(nodes)
     labels = [lab(k) for k, _, _ in nodes]
-    queries = query_list(labels, ex["pairs"])
-    extra: List[str] = []
-    answers = [impl_answer(ts, q, adj, extra) for q in queries]
-    root2, nodes2 = read_structure(ts)
+    queries = query_list(labels, pairs)
+    extra: List = []
+    answers = [impl_answer(ts, q, adj, extra, naming) for q in queries]
+    root2, nodes2 = read_structure(ts, naming)
     if (root2, nodes2) != (root, nodes):
         extra.append("a query modified the tree structure")
     tree = model_tree_tokens(root, nodes)
     qflat = " ".join("q " + " ".join(q) for q in queries)
     squeries = [q for q in queries if q[0] not in STRUCT_SKIP]
     qstruct = " ".join("q " + " ".join(q) for q in squeries)
-    return {"kind": "tree", "ex": ex, "root": root, "nodes": nodes, "adj": adj, "queries": queries,
-            "squeries": squeries, "answers": answers, "extra": extra,
+    return {"root": root, "nodes": nodes, "adj": adj, "queries": queries, "squeries": squeries,
+            "answers": answers, "extra": extra,
             "lines": [f"C17 flat tree {tree} {qflat}", f"C17 struct tree {tree} {qstruct}"]}
+
+
+STEP_KINDS = ["leaf", "leaf", "root", "rename", "swap", "reorder"]
+
+
+def apply_step(rng, ts, naming):
+    """One public mutator on the live tree; returns its description (canonical labels)."""
+    from pytreenet.core.graph_node import GraphNode
+    canon = [naming.canon(k) for k in ts.nodes]
+    used = {lab(k) for k in canon}
+    fresh = max(used) + 1 + rng.randrange(3)
+    r = naming.real
+    kind = rng.choice(STEP_KINDS)
+    if kind in ("swap", "reorder") and len(canon) < 2:
+        kind = "leaf"
+    if kind == "leaf":
+        parent = rng.choice(canon)
+        ts.add_child_to_parent(GraphNode(r(nm(fresh))), r(parent))
+        return ["leaf", lab(parent), fresh]
+    if kind == "root":
+        ts.add_parent_to_root(GraphNode(r(nm(fresh))))
+        return ["root", fresh]
+    if kind == "rename":
+        old = rng.choice(canon)
+        ts.change_node_identifier(r(nm(fresh)), r(old))
+        return ["rename", lab(old), fresh]
+    if kind == "swap":                      # two nodes exchange their identifiers
+        a, b = rng.sample(canon, 2)
+        ts.change_node_identifier("tmp_identifier", r(a))
+        ts.change_node_identifier(r(a), r(b))
+        ts.change_node_identifier(r(b), "tmp_identifier")
+        return ["swap", lab(a), lab(b)]
+    inner = [k for k in canon if len(ts.nodes[r(k)].children) >= 2]
+    if not inner:
+        parent = rng.choice(canon)
+        ts.add_child_to_parent(GraphNode(r(nm(fresh))), r(parent))
+        return ["leaf", lab(parent), fresh]
+    k = rng.choice(inner)                   # the first child moves to the end of the child list
+    node = ts.nodes[r(k)]
+    c = node.children[0]
+    node.remove_child(c)
+    node.add_child(c)
+    return ["reorder", lab(k)]
 
 
 def finish(ctx, case, p, outs):
     if p["kind"] == "real":
         return finish_real(ctx, case, p, outs)
-    ex, queries, answers = p["ex"], p["queries"], p["answers"]
+    ex = p["ex"]
     n = ex["n"]
-    key = (tuple(ex["par"]), tuple(ex["label"]), tuple(ex["order"]), tuple(map(tuple, ex["kids"])))
+    key = (tuple(ex["par"]), tuple(ex["label"]), tuple(ex["order"]), tuple(map(tuple, ex["kids"])),
+           ex.get("ids", "plain"), tuple(map(tuple, p["steps"])))
     ctx.count(key, nontrivial=n >= 3, corr=True)
-    ctx.tally("nodes", n if n <= 7 else ("8-14" if n <= 14 else "15-40"))
-    ctx.tally("variant", case.get("variant", "explicit"))
+    ctx.tally("nodes", n if n <= 7 else ("8-14" if n <= 14 else ("15-40" if n <= 40 else "41-300")))
+    base = case["base"] if case["kind"] == "history" else case
+    ctx.tally("variant", base.get("variant", "explicit"))
+    ctx.tally("identifiers", ex.get("ids", "plain"))
+    ctx.tally("history_steps", len(p["steps"]))
+    for st in p["steps"]:
+        ctx.tally("history_mutator", st[0])
     rootdeg = len(ex["kids"][ex["par"].index(-1)])
     ctx.tally("root_children", rootdeg if rootdeg < 3 else ">=3")
     ctx.sample(case, 3)
+    pos = 0
+    for i, seg in enumerate(p["segments"]):
+        where = "" if i == 0 else f"after {p['steps'][:i]}: "
+        finish_segment(ctx, case, seg, outs[pos:pos + 2], where)
+        pos += 2
+
+
+def finish_segment(ctx, case, seg, outs, where=""):
+    queries, answers = seg["queries"], seg["answers"]
     flat = outs[0].split(" | ")
     struct = outs[1].split(" | ")
     if outs[0] == "bad-op" or len(flat) != len(queries):
-        ctx.corr_fail(case, f"flat model rejected the request: {outs[0][:80]}")
+        ctx.corr_fail(case, f"{where}flat model rejected the request: {outs[0][:80]}")
         flat = None
-    if outs[1] == "bad-op" or len(struct) != len(p["squeries"]):
-        ctx.corr_fail(case, f"structural model rejected the request: {outs[1][:80]}")
+    if outs[1] == "bad-op" or len(struct) != len(seg["squeries"]):
+        ctx.corr_fail(case, f"{where}structural model rejected the request: {outs[1][:80]}")
         struct = None
     bad = 0
     if flat is not None:
         for q, a, m in zip(queries, answers, flat):
             if a != m and bad < 3:
                 bad += 1
-                ctx.corr_fail(case, f"{' '.join(q)}: impl '{a}' flat model '{m}'")
+                ctx.corr_fail(case, f"{where}{' '.join(q)}: impl '{a}' flat model '{m}'")
     if struct is not None:
         amap = dict(zip(queries, answers))
-        for q, m in zip(p["squeries"], struct):
+        for q, m in zip(seg["squeries"], struct):
             if amap[q] != m and bad < 6:
                 bad += 1
-                ctx.corr_fail(case, f"{' '.join(q)}: impl '{amap[q]}' structural model '{m}'")
-    probs = list(p["extra"]) + oracle(p["root"], p["nodes"], p["adj"], queries, answers, errkey=id(p["extra"]))
+                ctx.corr_fail(case, f"{where}{' '.join(q)}: impl '{amap[q]}' structural model '{m}'")
+    probs = [x for x in seg["extra"] if isinstance(x, str)]
+    probs += oracle(seg["root"], seg["nodes"], seg["adj"], queries, answers, errkey=id(seg["extra"]))
+    for x in seg["extra"]:
+        if isinstance(x, tuple) and x[0] == "second find_path":
+            # a second call on the same finder gave another list: it has to be a valid update path as well
+            probs += [f"second find_path() on the same finder: {m}"
+                      for m in oracle(seg["root"], seg["nodes"], seg["adj"], [("updatepath",)], [x[1]])]
     if probs:
-        ctx.oracle_fail(case, "; ".join(probs[:3]))
+        ctx.oracle_fail(case, where + "; ".join(probs[:3]))
 
 
 # ------------------------------------------------------------------ real networks
@@ -660,6 +875,11 @@ def prepare_real(ctx, case):
     adj = adjacency(nodes)
     labels = [lab(k) for k, _, _ in nodes]
     queries: List[Tuple[str, ...]] = [("updatepath",), ("segs",)] + [("cachekeys", str(x)) for x in labels]
+    parts = case.get("parts", ["nav"])
+    # every navigation query on the real network object as well (TreeTensorNetworkState is a TreeStructure whose
+    # nodes are `Node`s): asked after the cache keys so that the positions used below stay the same
+    navq = [q for q in query_list(labels, "all") if q[0] not in ("updatepath", "segs", "cachekeys")] \
+        if "nav" in parts else []
     answers, extra = [], []
     try:
         answers.append(fmt_ids(TDVPUpdatePathFinder(ttns).find_path()))
@@ -674,24 +894,48 @@ def prepare_real(ctx, case):
         except Exception as e:              # noqa: BLE001
             impl_answer.last_exc = f"{type(e).__name__}: {str(e)[:80]}"
             answers.append("err")
-    # the TDVP constructor: update path of the initial state, cache toward its first node
+    for q in navq:
+        answers.append(impl_answer(ttns, q, adj, extra))
+    if navq:
+        root2, nodes2 = read_structure(ttns)
+        if (root2, nodes2) != (root, nodes):
+            extra.append("a query modified the tree structure of the network")
+    # the TDVP constructors (all three classes share `_finds_update_path` / `_init_partial_tree_cache`): update
+    # path of the initial state, cache toward its first node; then - on one of them - a history: one time step,
+    # `reset_to_initial_state()`, and the initial cache / update path again
     tdvp = None
-    try:
-        algo = algos.make_algo("tdvp1", ttns, ttno, 0.1, 0.1, [])
-        tdvp = (fmt_ids(algo.update_path), sorted(algo.partial_tree_cache.keys()),
-                fmt_segs(algo.update_path, algo.orthogonalization_path))
-    except Exception as e:                  # noqa: BLE001
-        extra.append(f"TDVP constructor raised {type(e).__name__}: {str(e)[:80]}")
+    tdvp_all = {}
+    kinds = ("tdvp1", "tdvp2", "tdvp2site") if "nav" in parts else ("tdvp1",)
+    for kind in kinds:
+        try:
+            algo = algos.make_algo(kind, ttns, ttno, 0.1, 0.1, [])
+            tdvp_all[kind] = (fmt_ids(algo.update_path), sorted(algo.partial_tree_cache.keys()),
+                              fmt_segs(algo.update_path, algo.orthogonalization_path))
+        except Exception as e:                  # noqa: BLE001
+            extra.append(f"{kind} constructor raised {type(e).__name__}: {str(e)[:80]}")
+            continue
+        if "nav" in parts and kind == kinds[case["seed"] % len(kinds)] and (n >= 2 or kind == "tdvp1"):
+            try:
+                algo.run_one_time_step()
+                algo.reset_to_initial_state()
+                tdvp_all[kind + "+step+reset"] = (fmt_ids(algo.update_path), sorted(algo.partial_tree_cache.keys()),
+                                                  fmt_segs(algo.update_path, algo.orthogonalization_path))
+            except Exception as e:              # noqa: BLE001
+                extra.append(f"{kind}: run_one_time_step / reset_to_initial_state raised "
+                             f"{type(e).__name__}: {str(e)[:80]}")
+    tdvp = tdvp_all.get("tdvp1")
     # the event / environment traces tie the models Ptn.C05.Disc and Ptn.C09.Env to the code: they are run and
     # judged by the checks of C05 and C09 (case["parts"]), not by C17, whose property is navigation only
-    parts = case.get("parts", ["nav"])
     events = observe_events(ttns, ttno) if "events" in parts else {}
     bugenv = observe_bugenv(ttns, ttno) if "bugenv" in parts else {}
     tree = model_tree_tokens(root, nodes)
+    queries = queries + navq
     qs = " ".join("q " + " ".join(q) for q in queries)
+    squeries = [q for q in queries if q[0] not in STRUCT_SKIP]
+    qstruct = " ".join("q " + " ".join(q) for q in squeries)
     return {"kind": "real", "events": events, "bugenv": bugenv, "root": root, "nodes": nodes, "adj": adj, "queries": queries, "answers": answers,
-            "extra": extra, "tdvp": tdvp, "n": n,
-            "lines": [f"C17 flat tree {tree} {qs}", f"C17 struct tree {tree} {qs}",
+            "squeries": squeries, "extra": extra, "tdvp": tdvp, "tdvp_all": tdvp_all, "n": n, "navq": len(navq),
+            "lines": [f"C17 flat tree {tree} {qs}", f"C17 struct tree {tree} {qstruct}",
                       f"C17 struct tree {tree} q events first q events second q events twosite q bugenv"]}
 
 
@@ -859,7 +1103,11 @@ def finish_real(ctx, case, p, outs):
     queries, answers = p["queries"], p["answers"]
     ctx.count(("real", case["seed"], case["n"]), nontrivial=p["n"] >= 3, corr=True)
     ctx.tally("nodes", f"real-{p['n']}")
-    probs = list(p["extra"])
+    if p.get("navq"):
+        ctx.tally("real_network_navigation_queries", p["navq"])
+    for k in p.get("tdvp_all", {}):
+        ctx.tally("real_tdvp_objects", k)
+    probs = [x for x in p["extra"] if isinstance(x, str)]
     ev_model = outs[2].split(" | ")
     bug_model = parse_bugenv(ev_model[3])
     for kind, obs in p["bugenv"].items():
@@ -875,34 +1123,38 @@ def finish_real(ctx, case, p, outs):
         obs = p["events"][which]
         if obs.split(" (")[0] != m:
             ctx.corr_fail(case, f"events of one {which} time step: impl '{obs[:160]}' model '{m[:160]}'")
+    amap = dict(zip(queries, answers))
     for which, out in zip(("flat", "structural"), outs):
         model = out.split(" | ")
-        if out == "bad-op" or len(model) != len(queries):
+        mq = queries if which == "flat" else p.get("squeries", queries)
+        if out == "bad-op" or len(model) != len(mq):
             ctx.corr_fail(case, f"{which} model rejected the request: {out[:80]}")
             continue
-        for q, a, m in zip(queries, answers, model):
-            if a != m:
-                ctx.corr_fail(case, f"real network, {' '.join(q)}: impl '{a}' {which} model '{m}'")
+        for q, m in zip(mq, model):
+            if amap[q] != m:
+                ctx.corr_fail(case, f"real network, {' '.join(q)}: impl '{amap[q]}' {which} model '{m}'")
                 break
-        if p["tdvp"] is not None and which == "flat":
-            up, keys, segs = p["tdvp"]
-            if up != model[0]:
-                ctx.corr_fail(case, f"TDVP constructor: update_path '{up}' model '{model[0]}'")
-            if segs != model[1]:
-                ctx.corr_fail(case, f"TDVP constructor: (update_path[i], orthogonalization_path[i][0]) "
-                                    f"'{segs}' model '{model[1]}'")
-            first = up.split()[1]
-            qi = queries.index(("cachekeys", first))
-            want = sorted(tuple(nm(int(v)) for v in t.split(">")) for t in model[qi].split()[1:])
-            if keys != want:
-                ctx.corr_fail(case, f"TDVP constructor: cache keys {keys} model {want}")
+        if which == "flat":
+            for name, (up, keys, segs) in p.get("tdvp_all", {}).items():
+                if up != model[0]:
+                    ctx.corr_fail(case, f"{name}: update_path '{up}' model '{model[0]}'")
+                if segs != model[1]:
+                    ctx.corr_fail(case, f"{name}: (update_path[i], orthogonalization_path[i][0]) "
+                                        f"'{segs}' model '{model[1]}'")
+                first = up.split()[1]
+                if ("cachekeys", first) not in queries:
+                    continue                    # (the oracle below reports the wrong first node)
+                qi = queries.index(("cachekeys", first))
+                want = sorted(tuple(nm(int(v)) for v in t.split(">")) for t in model[qi].split()[1:])
+                if keys != want:
+                    ctx.corr_fail(case, f"{name}: cache keys {keys} model {want}")
     probs += oracle(p["root"], p["nodes"], p["adj"], queries, answers, errkey=id(p["extra"]))
-    if p["tdvp"] is not None:
-        up, keys, segs = p["tdvp"]
+    for name, (up, keys, segs) in p.get("tdvp_all", {}).items():
         first = up.split()[1]
         ans = " ".join(["ok"] + [f"{lab(a)}>{lab(b)}" for a, b in keys])
-        probs += oracle(p["root"], p["nodes"], p["adj"], [("updatepath",), ("segs",), ("cachekeys", first)],
-                        [up, segs, ans])
+        probs += [f"{name}: {m}" for m in
+                  oracle(p["root"], p["nodes"], p["adj"], [("updatepath",), ("segs",), ("cachekeys", first)],
+                         [up, segs, ans])]
     if probs:
         ctx.oracle_fail(case, "; ".join(probs[:3]))
 
@@ -914,6 +1166,13 @@ def shrink(case):
     if case["kind"] == "real":
         if case["n"] > 2:
             yield dict(case, n=case["n"] - 1)
+        return
+    if case["kind"] == "history":
+        if case["nsteps"] > 1:
+            yield dict(case, nsteps=case["nsteps"] - 1)
+        base = expand(case["base"])
+        if case["base"].get("kind") != "explicit":
+            yield dict(case, base=base)
         return
     ex = expand(case)
     n = ex["n"]
@@ -928,6 +1187,8 @@ def shrink(case):
                "label": [ex["label"][i] for i in range(n) if i != leaf],
                "order": [ren[i] for i in ex["order"] if i != leaf],
                "kids": [[ren[c] for c in ex["kids"][i] if c != leaf] for i in range(n) if i != leaf],
-               "build": "rename", "pairs": "all", "stub": True}
+               "build": "rename", "pairs": "all", "stub": True, **({"ids": ex["ids"]} if "ids" in ex else {})}
+    if "ids" in ex:
+        yield {k: v for k, v in ex.items() if k != "ids"}
     if ex["build"] != "rename" or ex["label"] != list(range(n)):
         yield dict(ex, label=list(range(n)), build="rename", pairs="all")
